@@ -11,7 +11,7 @@ from genlib import *
 
 LEAN_MODULES = ["MpirProofs.Props.C01_fftneg"]
 THEOREMS = ["Mpir.FftX.fft_negacyclic_weighted", "Mpir.FftX.ifft_negacyclic_inverts", "Mpir.FftX.negacyclic_convolution_chain",
-            "Mpir.FftX.naive_convolution_1_val", "Mpir.FftX.negacyclic_crt", "Mpir.FftX.recombine_corrected"]
+            "Mpir.FftX.naive_convolution_1_val", "Mpir.FftX.negacyclic_crt", "Mpir.FftX.negacyclic_sum_is_product", "Mpir.FftX.recombine_corrected"]
 PINS = [("fft/fft_negacyclic.c", "mpir_fft_negacyclic"), ("fft/ifft_negacyclic.c", "mpir_ifft_negacyclic"),
         ("fft/mulmod_2expp1.c", "mpir_fft_naive_convolution_1"), ("fft/mulmod_2expp1.c", "mpir_fft_mulmod_2expp1")]
 TRUSTED = ["hand-written value-level models of mpir_(i)fft_negacyclic and the limb-level model of mpir_fft_naive_convolution_1 in lean/Mpir/Model/FftNeg.lean "
